@@ -310,7 +310,10 @@ def step (st : State) (line : String) : State × String :=
     | _, _ => pure "ERR:noreg"
   | ["s_pos", i] =>
     match i.toNat?.bind (st.regs[·]?) with
-    | some s => pure (showE (s.symbols.map fun xs => s!"{s.codes.length} {showToks xs}"))
+    | some s =>
+      -- `Alphabet([])` of an empty sequence is refused by the constructor (ValueError)
+      pure (if s.codes.isEmpty then errS .valueError
+            else showE (s.symbols.map fun xs => s!"{s.codes.length} {showToks xs}"))
     | none => pure "ERR:noreg"
   | ["k_info", n, k, sp, len] =>
     let sp? : Option SpacingArg :=
@@ -350,7 +353,7 @@ def step (st : State) (line : String) : State × String :=
         | .ok _ => (fuse n k cs).map toString))
     | _, _, _ => pure "bad-op"
   | ["k_split", n, k, code] =>
-    match n.toNat?, k.toNat?, code.toInt? with
+    match n.toNat?, k.toNat?, parseIdx code with
     | some n, some k, some c =>
       pure (showE (match kmerNew k .none with
         | .error e => .error e
